@@ -114,6 +114,14 @@ def generate(rng, tier):
                     words.append(w[:-1])
         runes.append(rng.choice([0x7FF, 0x800, 0xFFFF, 0x10000, 0x10FFFF, 0xD7FF, 0xE000, 0x7F, 0x80, 32, 0x5F]))
         out.append((case(raw, off, runes, strs, words), {"stream": "random"}))
+    # big files (the rows are taken at the first/last 100 positions and around every multiple of 4096): short lines with
+    # CRLF pairs astride multiples of 4096 and 65536 of the raw content
+    bigs = [(70000, [65535], 1), (66000, [4095, 8191, 32767, 65534], 17)]
+    if tier != "quick":
+        bigs += [(140000, [65535, 131071], 2), (70000, [65534], 1), (70000, [65536], 5)]
+    for size, crs, off in bigs:
+        big = "(big_bytes %d [97; 98; 32; 49; 50; 9; 97; 97; 98] 23 37 %s)" % (size, lst(crs))
+        out.append(("C09 %s %d %s %s %s" % (big, off, lst(RUNES), lst2(STRS), lst2(WORDS)), {"stream": "big"}))
     return out
 
 
